@@ -247,7 +247,9 @@ def handleProg : Handler := fun input impl =>
           | some (v1, e1), some (v2, e2) =>
             match nameOf v1, nameOfE e1, nameOf v2, nameOfE e2 with
             | some a, some b, some b', some a' =>
-              if a == a' && b == b' && !(of "almost_swapped").any (fun d => d.primary.first == (stmtSpan s1).first && d.primary.last == e2.span.last) then
+              -- reported as this pair, or its first statement already closes a reported swap (`b = a` `a = b` `b = a`)
+              if a == a' && b == b' && !(of "almost_swapped").any (fun d =>
+                  (d.primary.first == (stmtSpan s1).first && d.primary.last == e2.span.last) || d.primary.last == e1.span.last) then
                 some (s!"[C04] almost_swapped missed-canonical: `{a} = {b}` `{b} = {a}` at tokens ({(stmtSpan s1).first} {e2.span.last}) not reported" ++
                   (match before.bind single with | some _ => " (the statement before the pair is another single assignment)" | none => ""))
               else none
@@ -333,7 +335,9 @@ def handleProg : Handler := fun input impl =>
           (blockStmts b).toList.map stmtSpan ++ (match blockLast b with | .none => [] | l => [lastSpan l])
         let msMiss := seqs.flatMap fun l => (pairs l).filterMap fun (s1, s2) =>
           if endLine s1.last == endLine s2.last && !(of "multiple_statements").any (fun d => d.primary == s2) then
-            some s!"[C04] multiple_statements missed-canonical: the statements at tokens {showSp s1} and {showSp s2} of one block both end on line {endLine s2.last}, the second is not reported"
+            some (s!"[C04] multiple_statements missed-canonical: the statements at tokens {showSp s1} and {showSp s2} of one block both end on line {endLine s2.last}, the second is not reported" ++
+              (if ifs.any (fun (_, c, _, _, _) => c.span.first ≤ s1.first && s2.last ≤ c.span.last && endLine (c.span.last + 1) == endLine s2.last)
+               then " (inside a function in the condition of an `if` whose `then` is on that line)" else ""))
           else none
         let items := ubFP ++ ubMiss ++ eiFP ++ eiMiss ++ elFP ++ elMiss ++ isFP ++ isMiss ++ icFP ++ icMiss ++ asFP ++ asMiss ++ maFP ++ maMiss ++ msFP ++ msMiss
         -- ------------------------------------------------------------------ coverage tags
